@@ -894,6 +894,25 @@ func (g *G) genC06(p *Plan, listing bool) {
 			ops = append(ops, lo)
 		}
 	}
+	bigP := 0.008
+	if g.thorough() {
+		bigP = 0.03
+	}
+	if !listing && c.Faulty && g.chance(bigP) {
+		// an upload of several tens of megabytes whose complete fails on a
+		// disk error and is then retried: what the retry stores is what the
+		// parts held before the failure
+		ops = ops[:0]
+		ops = append(ops, Op{K: "mpu-init", B: b, Key: "big", Meta: g.meta()})
+		np := g.n(5, 6)
+		var refs []PartRef
+		for n := 1; n <= np; n++ {
+			ops = append(ops, Op{K: "mpu-part", Up: 0, Part: n, Body: g.body(7<<20 + g.rng.Intn(1000))})
+			refs = append(refs, PartRef{N: n})
+		}
+		ops = append(ops, Op{K: "mpu-complete", Up: 0, Parts: refs, Faults: []Fault{{Kind: g.pick("eio", "enospc"), At: g.n(1, 12), N: g.n(0, 10)}}},
+			Op{K: "mpu-lsparts", Up: 0}, Op{K: "mpu-complete", Up: 0, Parts: refs}, Op{K: "get", B: b, Key: "big"})
+	}
 	p.Clients = [][]Op{ops}
 	c.Policy = simrt.Policy{Kind: "seq"}
 }
